@@ -462,7 +462,7 @@ impl<'a, 'b> Renderer<'a, 'b> {
                 self.kinds |= K_COMMENT;
             }
             _ => {
-                if self.o.nonascii_comments {
+                if self.o.nonascii_comments && self.src.bool() {
                     self.out.push_str(" # größe 中文 😀 é\n");
                     self.kinds |= K_COMMENT | K_NONASCII;
                 } else {
